@@ -100,7 +100,8 @@ def run(ctx):
     common.import_spowtd()
     warnings.simplefilter("ignore")
     rng = ctx.rng
-    nsets, ncli = (6, 6) if ctx.tier == "quick" else (150, 60)
+    nsets, ncli = (6, 10) if ctx.tier == "quick" else (150, 80)
+    n_cli_done = 0
     for k in range(nsets):
         params = sim.spline_params(rng, -300.0, 100.0) if k % 3 else sim.peatclsm_params(rng, 100.0)
         if params["transmissivity"]["type"] == "spline":
@@ -128,8 +129,14 @@ def run(ctx):
             P.cleanup(w)
             continue
         curv = rng.choice([0.0, 1.5, 0.4])
-        cli.run(["set-curvature", w["db"], repr(curv)])
+        rc = cli.run(["set-curvature", w["db"], repr(curv)])
         t = cli.dump(w["db"])
+        if rc[0] != "ok" or [list(r) for r in (t.get("curvature") or [])] != [[curv]]:
+            ctx.corr_break(ob_cli, {"input": {"truth": tr.describe(), "zeta_step": zstep, "curvature_m_km2": curv},
+                                    "impl": {"set-curvature": list(rc), "curvature": t.get("curvature")},
+                                    "no_longer_checks": "`set-curvature` stores the curvature it is given"})
+            P.cleanup(w)
+            continue
         view = t["average_recession_time"]
         levels = [r[0] for r in view]
         # (spline transmissivity costs a nested quad per evaluation: one CLI case in three)
@@ -153,6 +160,7 @@ def run(ctx):
             srm.compute_recession_curve = real
         P.cleanup(w)
         ctx.case(("c18-cli", tr.describe(), str(params), curv), len(levels) >= 3)
+        n_cli_done += 1
         if r1[0] != "ok" or r2[0] != "ok":
             ctx.violation("impl-violation", "c18Holds", {"input": inp, "impl": [list(r1), list(r2)], "oracle": {
                 "name": "c18Holds", "result": False, "witness": {"why": "simulate recession failed", "status": [list(r1), list(r2)]}}})
@@ -160,6 +168,11 @@ def run(ctx):
         # ET: time-average over all time steps of the recession intervals of the master curve
         im = C.impl_tables(t)
         inter = dict((a, b) for a, b in im["interstorms"])
+        if not t["recession_interval"] or any(int(r[0]) not in inter for r in t["recession_interval"]):
+            ctx.violation("impl-violation", "c18Holds", {"input": inp, "impl": t["recession_interval"][:5], "oracle": {
+                "name": "c18Holds", "result": False,
+                "witness": {"why": "the intervals of the recession curve are not interstorm intervals of the dataset"}}})
+            continue
         ivs = [[int(r[0]), inter[int(r[0])]] for r in t["recession_interval"]]
         if len(inter) > len(ivs):
             ctx.count("datasets_with_interstorm_intervals_outside_the_master_curve")
@@ -191,6 +204,11 @@ def run(ctx):
             wit = {"why": "--observations vector differs from the simulated column (order highest to lowest)"}
         elif not text2.startswith("# Recession curve simulation vector\n"):
             wit = {"why": "--observations output lacks its marker line"}
+        elif (len(used.get("zeta_grid_mm", [])) != len(levels)
+              or any(abs(float(a) - b) > 1e-9 * max(1.0, abs(b)) for a, b in zip(used["zeta_grid_mm"], levels))
+              and any(abs(float(a) - b) > 1e-9 * max(1.0, abs(b)) for a, b in zip(used["zeta_grid_mm"], levels[::-1]))):
+            wit = {"why": "the grid on which the curve is computed is not the levels of the master curve in mm",
+                   "grid": [float(z) for z in used.get("zeta_grid_mm", [])][:5], "master_curve_mm": levels[:5]}
         else:
             tsim = check_curve(ctx, params, [float(z) for z in used["zeta_grid_mm"]], float(used["mean_elapsed_time_d"]),
                                float(used["curvature_km"]), float(et_used), dict(inp, via="levels of the measured master curve"))
@@ -204,6 +222,9 @@ def run(ctx):
         if wit is not None:
             ctx.violation("impl-violation", "c18Holds", {"input": inp, "impl": rows[:5],
                           "oracle": {"name": "c18Holds", "result": False, "witness": wit}})
+    if n_cli_done == 0:
+        ctx.corr_break(ob_cli, {"input": None, "no_longer_checks": "no planted dataset got as far as `simulate recession` "
+                                "(load / classify / set-zeta-grid / recession fail on every one)"})
 
 
 def replay(ctx, doc):
